@@ -2,6 +2,7 @@
 //! It never decides a property: it only turns a failed Verus obligation into a concrete input and re-executes
 //! recorded witnesses / known findings.
 mod json;
+mod cfg;
 mod touch;
 mod props;
 mod gen;
